@@ -20,6 +20,14 @@
 (*        touches the removed blobber's allocated/offer counters;          *)
 (*   RefreshZeroesOffers      TRUE  = kill.go: a repeated kill_blobber     *)
 (*        sets TotalOffers to 0 although allocations still hold offers.    *)
+(* The free-storage assigner's limits are STATE: the contract owner may    *)
+(* register the assigner again with other limits (Reassign), also with a   *)
+(* total limit below what is already redeemed; IndLimit / TotLimit are the *)
+(* limits of the first registration and the configured maxima.  A penalty  *)
+(* (failed challenge, settled with the next passed one) may slash the      *)
+(* blobber's stake by any amount INCLUDING ZERO (blobber_slash 0, or a     *)
+(* slash that rounds down to zero); slashing is explored only when         *)
+(* "slash" \in Groups.                                                     *)
 (* The properties C09 C12 C13 C14 C15 C24 are stated at the end.           *)
 (***************************************************************************)
 EXTENDS Integers, FiniteSets, TLC
@@ -31,7 +39,7 @@ CONSTANTS Alloc, Blob, Client,     \* allocations, blobbers, clients
           NBlob,                   \* blobbers per new allocation
           Price, MaxCtr,           \* read price per read, bound of read counters
           IndLimit, TotLimit, Nonce, \* free-storage assigner limits, marker nonces
-          Groups,                  \* subset of {"alloc","read","free"}: which actions are explored
+          Groups,                  \* subset of {"alloc","read","free","slash"}: which actions are explored
           SavePoolOnKilledReplace, RefreshZeroesOffers
 
 NoPool == -1
@@ -52,12 +60,16 @@ VARIABLES st,        \* [Alloc -> {"none","open","closed"}]
           rp, ctr,   \* [Client -> Nat] read pool; [Client -> Nat] last redeemed counter (one blobber, one allocation)
           charged,   \* [Client -> Nat] history: tokens ever taken from the client's read pool by reads
           red, used, \* assigner: redeemed amount, redeemed nonces
+          indLim, totLim, \* assigner: individual and total limit as last registered by the owner
+          redAtReg,  \* history: the redeemed amount at the moment of the last (re-)registration
+          stake,     \* [Blob -> 0..1] stake units that a penalty can still slash (not a liability of the pools modelled here)
           closes     \* [Alloc -> Nat] history: successful finalize/cancel
 
-vars == <<st, owner, expired, wp, cp, in, size, iv, allocated, offers, killed, rew, bal, W, rp, ctr, charged, red, used, closes>>
-allocVars == <<st, owner, expired, wp, cp, in, size, iv, allocated, offers, killed, closes>>
+vars == <<st, owner, expired, wp, cp, in, size, iv, allocated, offers, killed, rew, bal, W, rp, ctr, charged, red, used,
+          indLim, totLim, redAtReg, stake, closes>>
+allocVars == <<st, owner, expired, wp, cp, in, size, iv, allocated, offers, killed, stake, closes>>
 readVars == <<rp, ctr, charged>>
-freeVars == <<red, used>>
+freeVars == <<red, used, indLim, totLim, redAtReg>>
 
 RECURSIVE SumOver(_, _)
 SumOver(f, S) == IF S = {} THEN 0 ELSE LET x == CHOOSE y \in S : TRUE IN f[x] + SumOver(f, S \ {x})
@@ -75,6 +87,7 @@ Init ==
   /\ rew = [b \in Blob |-> 0] /\ bal = [c \in Client |-> M] /\ W = 0
   /\ rp = [c \in Client |-> 0] /\ ctr = [c \in Client |-> 0] /\ charged = [c \in Client |-> 0]
   /\ red = 0 /\ used = {} /\ closes = [a \in Alloc |-> 0]
+  /\ indLim = IndLimit /\ totLim = TotLimit /\ redAtReg = 0 /\ stake = [b \in Blob |-> 1]
 
 -----------------------------------------------------------------------------
 (* allocation.go newAllocationRequestInternal / setupNewAllocation *)
@@ -89,37 +102,55 @@ NewAlloc(a, c, B, v) ==
   /\ allocated' = [b \in Blob |-> IF b \in B THEN allocated[b] + 1 ELSE allocated[b]]
   /\ offers' = [b \in Blob |-> IF b \in B THEN offers[b] + 1 ELSE offers[b]]
   /\ bal' = [bal EXCEPT ![c] = @ - v] /\ W' = W + v
-  /\ UNCHANGED <<killed, rew, closes>> /\ UNCHANGED readVars /\ UNCHANGED freeVars
+  /\ UNCHANGED <<killed, rew, closes, stake>> /\ UNCHANGED readVars /\ UNCHANGED freeVars
 
 (* writepool.go writePoolLock: only on an existing (open) allocation *)
 WritePoolLock(a, c, v) ==
   /\ "alloc" \in Groups /\ st[a] = "open" /\ v >= 1 /\ v <= bal[c]
   /\ wp' = [wp EXCEPT ![a] = @ + v] /\ bal' = [bal EXCEPT ![c] = @ - v] /\ W' = W + v
-  /\ UNCHANGED <<st, owner, expired, cp, in, size, iv, allocated, offers, killed, rew, closes>> /\ UNCHANGED readVars /\ UNCHANGED freeVars
+  /\ UNCHANGED <<st, owner, expired, cp, in, size, iv, allocated, offers, killed, rew, closes, stake>> /\ UNCHANGED readVars /\ UNCHANGED freeVars
 
 (* blobber.go commitMoveTokens, size > 0: write pool -> challenge pool, same amount on the blobber's value *)
 Upload(a, b, m) ==
   /\ "alloc" \in Groups /\ st[a] = "open" /\ ~expired[a] /\ b \in in[a] /\ ~killed[b] /\ m <= wp[a]
   /\ wp' = [wp EXCEPT ![a] = @ - m] /\ cp' = [cp EXCEPT ![a] = @ + m] /\ iv' = [iv EXCEPT ![a][b] = @ + m]
-  /\ UNCHANGED <<st, owner, expired, in, size, allocated, offers, killed, rew, bal, W, closes>> /\ UNCHANGED readVars /\ UNCHANGED freeVars
+  /\ UNCHANGED <<st, owner, expired, in, size, allocated, offers, killed, rew, bal, W, closes, stake>> /\ UNCHANGED readVars /\ UNCHANGED freeVars
 
 (* commitMoveTokens, size < 0 *)
 Delete(a, b, m) ==
   /\ "alloc" \in Groups /\ st[a] = "open" /\ ~expired[a] /\ b \in in[a] /\ ~killed[b] /\ m <= iv[a][b]
   /\ wp' = [wp EXCEPT ![a] = @ + m] /\ cp' = [cp EXCEPT ![a] = @ - m] /\ iv' = [iv EXCEPT ![a][b] = @ - m]
-  /\ UNCHANGED <<st, owner, expired, in, size, allocated, offers, killed, rew, bal, W, closes>> /\ UNCHANGED readVars /\ UNCHANGED freeVars
+  /\ UNCHANGED <<st, owner, expired, in, size, allocated, offers, killed, rew, bal, W, closes, stake>> /\ UNCHANGED readVars /\ UNCHANGED freeVars
 
 (* challenge.go blobberReward: part m of the value leaves the pool for the blobber's (and validators') rewards *)
 ChallengePass(a, b, m) ==
   /\ "alloc" \in Groups /\ st[a] = "open" /\ ~expired[a] /\ b \in in[a] /\ m <= iv[a][b]
   /\ cp' = [cp EXCEPT ![a] = @ - m] /\ iv' = [iv EXCEPT ![a][b] = @ - m] /\ rew' = [rew EXCEPT ![b] = @ + m]
-  /\ UNCHANGED <<st, owner, expired, wp, in, size, allocated, offers, killed, bal, W, closes>> /\ UNCHANGED readVars /\ UNCHANGED freeVars
+  /\ UNCHANGED <<st, owner, expired, wp, in, size, allocated, offers, killed, bal, W, closes, stake>> /\ UNCHANGED readVars /\ UNCHANGED freeVars
 
-(* challenge.go blobberPenalty (applied with the next passed challenge): value goes back to the write pool *)
-ChallengePenalty(a, b, m) ==
+(* challenge.go blobberPenalty (applied with the next passed challenge): value goes back to the write pool; the   *)
+(* blobber's stake is slashed by s, which may be ZERO (blobber_slash = 0, or move * blobber_slash rounds to 0):    *)
+(* the pool bookkeeping is the same whatever the slash.                                                           *)
+ChallengePenalty(a, b, m, s) ==
   /\ "alloc" \in Groups /\ st[a] = "open" /\ ~expired[a] /\ b \in in[a] /\ m <= iv[a][b]
+  /\ s \in 0..stake[b] /\ (s > 0 => "slash" \in Groups)
   /\ cp' = [cp EXCEPT ![a] = @ - m] /\ iv' = [iv EXCEPT ![a][b] = @ - m] /\ wp' = [wp EXCEPT ![a] = @ + m]
+  /\ stake' = [stake EXCEPT ![b] = @ - s]
   /\ UNCHANGED <<st, owner, expired, in, size, allocated, offers, killed, rew, bal, W, closes>> /\ UNCHANGED readVars /\ UNCHANGED freeVars
+
+\* the same with a non-zero slash, under its own name (coverage of the "slash" group)
+ChallengePenaltySlashed(a, b, m, s) == s >= 1 /\ ChallengePenalty(a, b, m, s)
+
+(* challenge.go processChallengePassed for a blobber whose previous challenge failed or expired: ONE transaction   *)
+(* settles the penalty (mp back to the write pool, stake slashed by s >= 0) and then pays the pass reward mr, both  *)
+(* out of the same challenge pool.                                                                                 *)
+ChallengePassAfterFail(a, b, mp, s, mr) ==
+  /\ "alloc" \in Groups /\ st[a] = "open" /\ ~expired[a] /\ b \in in[a] /\ mp + mr <= iv[a][b]
+  /\ s \in 0..stake[b] /\ (s > 0 => "slash" \in Groups)
+  /\ cp' = [cp EXCEPT ![a] = @ - mp - mr] /\ iv' = [iv EXCEPT ![a][b] = @ - mp - mr]
+  /\ wp' = [wp EXCEPT ![a] = @ + mp] /\ rew' = [rew EXCEPT ![b] = @ + mr]
+  /\ stake' = [stake EXCEPT ![b] = @ - s]
+  /\ UNCHANGED <<st, owner, expired, in, size, allocated, offers, killed, bal, W, closes>> /\ UNCHANGED readVars /\ UNCHANGED freeVars
 
 (* allocation.go extendAllocation + adjustChallengePool: new expiration, optional growth, value adjusted both ways *)
 Extend(a, b, d, up, grow) ==
@@ -132,7 +163,7 @@ Extend(a, b, d, up, grow) ==
   /\ size' = IF grow THEN [size EXCEPT ![a] = [x \in Blob |-> IF x \in in[a] THEN @[x] + 1 ELSE @[x]]] ELSE size
   /\ allocated' = IF grow THEN [x \in Blob |-> IF x \in in[a] THEN allocated[x] + 1 ELSE allocated[x]] ELSE allocated
   /\ offers' = IF grow THEN [x \in Blob |-> IF x \in in[a] THEN offers[x] + 1 ELSE offers[x]] ELSE offers
-  /\ UNCHANGED <<st, owner, expired, in, killed, rew, bal, W, closes>> /\ UNCHANGED readVars /\ UNCHANGED freeVars
+  /\ UNCHANGED <<st, owner, expired, in, killed, rew, bal, W, closes, stake>> /\ UNCHANGED readVars /\ UNCHANGED freeVars
 
 (* models.go changeBlobbers without removal *)
 AddBlobber(a, nb) ==
@@ -141,7 +172,7 @@ AddBlobber(a, nb) ==
        /\ allocated[nb] + s <= Cap
        /\ in' = [in EXCEPT ![a] = @ \cup {nb}] /\ size' = [size EXCEPT ![a][nb] = s]
        /\ allocated' = [allocated EXCEPT ![nb] = @ + s] /\ offers' = [offers EXCEPT ![nb] = @ + s]
-  /\ UNCHANGED <<st, owner, expired, wp, cp, iv, killed, rew, bal, W, closes>> /\ UNCHANGED readVars /\ UNCHANGED freeVars
+  /\ UNCHANGED <<st, owner, expired, wp, cp, iv, killed, rew, bal, W, closes, stake>> /\ UNCHANGED readVars /\ UNCHANGED freeVars
 
 (* models.go replaceBlobber, blobber alive: pass payment m1 and charge ch to the removed blobber, rest back *)
 ReplaceAlive(a, ob, nb, m1, ch) ==
@@ -158,7 +189,7 @@ ReplaceAlive(a, ob, nb, m1, ch) ==
   /\ wp' = [wp EXCEPT ![a] = @ + (iv[a][ob] - m1) - ch]
   /\ iv' = [iv EXCEPT ![a][ob] = 0]
   /\ rew' = [rew EXCEPT ![ob] = @ + m1 + ch]
-  /\ UNCHANGED <<st, owner, expired, killed, bal, W, closes>> /\ UNCHANGED readVars /\ UNCHANGED freeVars
+  /\ UNCHANGED <<st, owner, expired, killed, bal, W, closes, stake>> /\ UNCHANGED readVars /\ UNCHANGED freeVars
 
 (* models.go replaceBlobber, removed blobber killed / shut down *)
 ReplaceKilled(a, ob, nb) ==
@@ -176,7 +207,7 @@ ReplaceKilled(a, ob, nb) ==
                  /\ cp' = cp                                          \* challenge pool object never saved
   /\ wp' = [wp EXCEPT ![a] = @ + iv[a][ob]]
   /\ iv' = [iv EXCEPT ![a][ob] = 0]
-  /\ UNCHANGED <<st, owner, expired, killed, rew, bal, W, closes>> /\ UNCHANGED readVars /\ UNCHANGED freeVars
+  /\ UNCHANGED <<st, owner, expired, killed, rew, bal, W, closes, stake>> /\ UNCHANGED readVars /\ UNCHANGED freeVars
 
 (* kill.go: first call kills; a repeated call "refreshes" the provider *)
 Kill(b) ==
@@ -184,12 +215,12 @@ Kill(b) ==
   /\ IF ~killed[b] THEN killed' = [killed EXCEPT ![b] = TRUE] /\ UNCHANGED offers
      ELSE /\ UNCHANGED killed
           /\ offers' = IF RefreshZeroesOffers THEN [offers EXCEPT ![b] = 0] ELSE offers
-  /\ UNCHANGED <<st, owner, expired, wp, cp, in, size, iv, allocated, rew, bal, W, closes>> /\ UNCHANGED readVars /\ UNCHANGED freeVars
+  /\ UNCHANGED <<st, owner, expired, wp, cp, in, size, iv, allocated, rew, bal, W, closes, stake>> /\ UNCHANGED readVars /\ UNCHANGED freeVars
 
 Tick(a) ==
   /\ "alloc" \in Groups /\ st[a] = "open" /\ ~expired[a]
   /\ expired' = [expired EXCEPT ![a] = TRUE]
-  /\ UNCHANGED <<st, owner, wp, cp, in, size, iv, allocated, offers, killed, rew, bal, W, closes>> /\ UNCHANGED readVars /\ UNCHANGED freeVars
+  /\ UNCHANGED <<st, owner, wp, cp, in, size, iv, allocated, offers, killed, rew, bal, W, closes, stake>> /\ UNCHANGED readVars /\ UNCHANGED freeVars
 
 (* allocation.go finishAllocation: pass payments pay[b] <= iv, rest of the pool back to the write pool,     *)
 (* cancellation charge ch, every remaining write-pool token to the owner, allocation and pool removed.      *)
@@ -209,7 +240,7 @@ Close(a, pay, ch) ==
   /\ allocated' = [b \in Blob |-> IF b \in in[a] THEN allocated[b] - size[a][b] ELSE allocated[b]]
   /\ offers' = [b \in Blob |-> IF b \in in[a] THEN offers[b] - size[a][b] ELSE offers[b]]
   /\ closes' = [closes EXCEPT ![a] = @ + 1]
-  /\ UNCHANGED <<owner, expired, killed>> /\ UNCHANGED readVars /\ UNCHANGED freeVars
+  /\ UNCHANGED <<owner, expired, killed, stake>> /\ UNCHANGED readVars /\ UNCHANGED freeVars
 
 Finalize(a, caller, pay, ch) ==
   /\ "alloc" \in Groups /\ st[a] = "open" /\ expired[a] /\ CanClose(a)
@@ -251,7 +282,7 @@ ReadMarker(c, b, k, sigok) ==
 (* free_allocation.go freeAllocationRequest: marker = [recipient, tokens, nonce, sigok]; the contract owner pays *)
 FreeAccepted(caller, mk) ==
   /\ caller = mk.recipient /\ mk.sigok /\ mk.nonce \notin used
-  /\ mk.tokens <= IndLimit /\ red + mk.tokens <= TotLimit
+  /\ mk.tokens <= indLim /\ red + mk.tokens <= totLim
 FreeAlloc(caller, mk, a) ==
   /\ "free" \in Groups
   /\ IF FreeAccepted(caller, mk) /\ st[a] = "none"
@@ -259,7 +290,16 @@ FreeAlloc(caller, mk, a) ==
             /\ st' = [st EXCEPT ![a] = "open"] /\ owner' = [owner EXCEPT ![a] = mk.recipient]
             /\ wp' = [wp EXCEPT ![a] = mk.tokens] /\ cp' = [cp EXCEPT ![a] = 0] /\ W' = W + mk.tokens
        ELSE UNCHANGED <<red, used, st, owner, wp, cp, W>>
-  /\ UNCHANGED <<expired, in, size, iv, allocated, offers, killed, rew, bal, closes>> /\ UNCHANGED readVars
+  /\ UNCHANGED <<expired, in, size, iv, allocated, offers, killed, rew, bal, closes, stake, indLim, totLim, redAtReg>>
+  /\ UNCHANGED readVars
+
+(* free_allocation.go addFreeStorageAssigner for a name that is already registered: the owner sets other limits  *)
+(* (any, also a total limit below what is already redeemed); what the assigner has redeemed - amount and nonces - *)
+(* stays.                                                                                                        *)
+Reassign(i, t) ==
+  /\ "free" \in Groups /\ i \in 1..IndLimit /\ t \in 0..TotLimit
+  /\ indLim' = i /\ totLim' = t /\ redAtReg' = red
+  /\ UNCHANGED <<red, used>> /\ UNCHANGED allocVars /\ UNCHANGED <<rew, bal, W>> /\ UNCHANGED readVars
 
 Marker == [recipient : Client, tokens : 1..M, nonce : Nonce, sigok : BOOLEAN]
 
@@ -268,7 +308,9 @@ Pay(a) == [in[a] -> 0..M]
 Next ==
   \/ \E a \in Alloc, c \in Client, B \in SUBSET Blob, v \in 1..M : NewAlloc(a, c, B, v)
   \/ \E a \in Alloc, c \in Client, v \in 1..M : WritePoolLock(a, c, v)
-  \/ \E a \in Alloc, b \in Blob, m \in 1..M : Upload(a, b, m) \/ Delete(a, b, m) \/ ChallengePass(a, b, m) \/ ChallengePenalty(a, b, m)
+  \/ \E a \in Alloc, b \in Blob, m \in 1..M : Upload(a, b, m) \/ Delete(a, b, m) \/ ChallengePass(a, b, m)
+  \/ \E a \in Alloc, b \in Blob, m \in 1..M, s \in 0..M : ChallengePenalty(a, b, m, s)
+  \/ \E a \in Alloc, b \in Blob, mp \in 1..M, s \in 0..M, mr \in 0..M : ChallengePassAfterFail(a, b, mp, s, mr)
   \/ \E a \in Alloc, b \in Blob, d \in 0..M, up \in BOOLEAN, grow \in BOOLEAN : Extend(a, b, d, up, grow)
   \/ \E a \in Alloc, nb \in Blob : AddBlobber(a, nb)
   \/ \E a \in Alloc, ob \in Blob, nb \in Blob, m1 \in 0..M, ch \in 0..ChargeCap : ReplaceAlive(a, ob, nb, m1, ch)
@@ -280,6 +322,7 @@ Next ==
   \/ \E c \in Client : ReadPoolUnlock(c)
   \/ \E c \in Client, b \in Blob, k \in 0..MaxCtr, s \in BOOLEAN : ReadMarker(c, b, k, s)
   \/ \E caller \in Client, mk \in Marker, a \in Alloc : FreeAlloc(caller, mk, a)
+  \/ \E i \in 1..IndLimit, t \in 0..TotLimit : Reassign(i, t)
 
 Spec == Init /\ [][Next]_vars
 
@@ -289,6 +332,8 @@ TypeOK ==
   /\ \A a \in Alloc, b \in Blob : iv[a][b] >= 0 /\ size[a][b] >= 0
   /\ \A b \in Blob : allocated[b] >= 0 /\ offers[b] >= 0 /\ rew[b] >= 0
   /\ \A c \in Client : bal[c] >= 0 /\ rp[c] >= 0 /\ ctr[c] >= 0
+  /\ \A b \in Blob : stake[b] >= 0
+  /\ indLim \in 1..IndLimit /\ totLim \in 0..TotLimit /\ red >= 0
 
 (* C12: the challenge pool of an open allocation = sum of its blobbers' outstanding values; none when closed *)
 C12_ChallengePool ==
@@ -324,7 +369,12 @@ C15_Monotone == [][\A c \in Client : ctr'[c] >= ctr[c]]_vars
 C15_ChargedOnce == \A c \in Client : charged[c] = Price * ctr[c]
 C15_Accept == [][\A c \in Client : ctr'[c] # ctr[c] => rp[c] - rp'[c] = Price * (ctr'[c] - ctr[c])]_vars
 
-(* C24: within limits, each nonce once *)
-C24_Limits == red <= TotLimit
-C24_Once == [][(red' # red) => /\ red' - red <= IndLimit /\ Cardinality(used') = Cardinality(used) + 1]_vars
+(* C24: within limits, each nonce once.  The limits are those registered at the moment of the grant.  The redeemed *)
+(* amount is above the total limit only if the owner lowered the limit below it and nothing was granted since; a   *)
+(* re-registration keeps what was redeemed (amount and nonces), so "once" and "within the total" hold for the      *)
+(* assigner, not just per registration.                                                                            *)
+C24_Limits == red <= totLim \/ red = redAtReg
+C24_Once == [][(red' # red) => /\ red' - red <= indLim /\ red' <= totLim
+                               /\ Cardinality(used') = Cardinality(used) + 1 /\ used \subseteq used']_vars
+C24_Rereg == [][(indLim' # indLim \/ totLim' # totLim) => (red' = red /\ used' = used)]_vars
 =============================================================================
